@@ -182,6 +182,16 @@ def prepare(prop, module_file, extra_targets=()):
                     b.bad_axioms[n] = ax
         b.grep_hits = source_grep()
         b.cargo_errs = cargo_build()
+        # thorough tier: independent re-check of the compiled property modules by leanchecker
+        tier = os.environ.get('VERIF_TIER', 'quick')
+        if '--tier' in sys.argv:
+            tier = sys.argv[sys.argv.index('--tier') + 1]
+        b.leanchecker = None
+        if tier == 'thorough' and rc == 0:
+            rc3, out3, err3 = sh(['lake', 'env', 'leanchecker'] + b.modules, cwd=LEAN, timeout=1800)
+            b.leanchecker = 'ok' if rc3 == 0 else (out3 + err3)[-800:]
+            if rc3 != 0:
+                b.lean_errs.append(('leanchecker', 0, b.leanchecker))
     return b
 
 
@@ -321,7 +331,8 @@ def finish(rep, build, level, coverage_extra, assumptions, n_obligations=None):
         'checker_cmd': f"cd /verif/lean && lake build {' '.join(build.modules) if build else ''} && lake env lean work/audit (#print axioms)",
         'trusted_base': ["Lean 4.33.0 kernel", "axioms allowed: propext, Classical.choice, Quot.sound",
                          "translator /verif/translator (Gen/*.lean regenerated from /repo this run)",
-                         "correspondence: rust_exec (checked + release profiles) vs compiled Lean model"],
+                         "correspondence: rust_exec (checked + release profiles) vs compiled Lean model"]
+                        + ([f"leanchecker re-check of {' '.join(build.modules)}: {build.leanchecker}"] if build and getattr(build, 'leanchecker', None) else []),
         'theorems': {n: build.axioms.get(n) for n, _ in thms} if build else {},
         'broken_obligations': broken,
         'evaluations': max(rep.evaluations, 1),
